@@ -44,3 +44,9 @@ package cache
 //@   ensures [C20:private-copy] v != nil ==> fresh(v)
 //@   ensures [C07:key-rechecked] v != nil ==> ge != nil && len(ge.k) == len(k) && forall(j, 0, len(k), ge.k[j] == k[j])
 //@   ensures [C07:value-of-that-entry] v != nil ==> ge.v != nil && len(v) == len(ge.v) && bytesEq(v, 0, ge.v, 0, len(v)) && storedTime == ge.storedTime && expireTime == ge.expireTime
+
+//@ func (c *RedisCache) Get(ctx context.Context, k []byte) (storedTime time.Time, expireTime time.Time, v []byte)
+//@   trusted
+//@   modifies nothing
+// representation invariant of a constructed MemoryCache (NewMemoryCache sets both counters)
+//@ spec func memOK(c *MemoryCache) bool = c.getTotal != nil && c.hitTotal != nil
